@@ -403,18 +403,20 @@ def run(ctx):
     nruns = 40 if quick else 400
     jobs = {
         "pool": pool.submit(vf.run_gotest, ctx, binary, "^TestVfC17PoolReplay$",
-                            env={"VF_SCHEDULES": psp, "VF_TRACES": ptr, "VF_PAR": 8 if quick else 12}, timeout=900),
+                            env={"VF_SCHEDULES": psp, "VF_TRACES": ptr, "VF_PAR": 8 if quick else 12}, timeout=900, check=False),
         "deb": pool.submit(vf.run_gotest, ctx, binary, "^TestVfC17Debouncer$",
-                           env={"VF_SCHEDULES": dsp, "VF_TRACES": dtr, "VF_PAR": 8, "VF_WATCHDOG_MS": 1500}, timeout=900),
-        "scen": pool.submit(vf.run_gotest, ctx, binary, "^TestVfC17Scenarios$", env={"VF_TRACES": scn}, timeout=300),
+                           env={"VF_SCHEDULES": dsp, "VF_TRACES": dtr, "VF_PAR": 8, "VF_WATCHDOG_MS": 1500}, timeout=900, check=False),
+        "scen": pool.submit(vf.run_gotest, ctx, binary, "^TestVfC17Scenarios$", env={"VF_TRACES": scn}, timeout=300, check=False),
         "sess": pool.submit(vf.run_gotest, ctx, binary, "^TestVfC17Sessions$",
-                            env={"VF_TRACES": str_, "VF_NRUNS": nruns, "VF_BATCH": 8}, timeout=900),
+                            env={"VF_TRACES": str_, "VF_NRUNS": nruns, "VF_BATCH": 8}, timeout=900, check=False),
     }
     outs = {}
     crashed = {}
     for k, f in jobs.items():
         rc, out = f.result()
         outs[k] = out
+        if rc in (124, 137):
+            raise vf.Inconclusive("driver %s timed out:\n%s" % (k, out[-3000:]))
         if "VFSUMMARY" not in out:
             pm = re.search(r"^(panic: [^\n]*|fatal error: [^\n]*)\n(.*)", out, re.M | re.S)
             if pm and "test timed out" not in pm.group(1):
